@@ -21,7 +21,7 @@ use ordered_float::OrderedFloat;
 use write_fonts::{OtRound, types::GlyphId16};
 
 use crate::{
-    error::{BadGlyph, Error},
+    error::{BadGlyph, BadGlyphKind, Error},
     ir::{Component, Glyph, GlyphBuilder, GlyphInstance, GlyphOrder, StaticMetadata},
     orchestration::{Context, Flags, IrWork, WorkId},
     propagate_anchors::propagate_all_anchors,
@@ -168,7 +168,8 @@ enum GlyphOp {
 
 /// Fix glyphs with mixed components/contours.
 ///
-/// We presume component cycles are checked elsewhere and do not check for them here
+/// Component cycles are rejected at the start of [`GlyphOrderWork::exec`] (see
+/// [`check_no_component_cycles`]) so we do not check for them here.
 fn resolve_inconsistencies(
     context: &Context,
     mut todo: VecDeque<(GlyphOp, Arc<Glyph>)>,
@@ -252,6 +253,31 @@ fn prune_missing_components(context: &Context) {
             instance.components.retain(|c| !missing.contains(&c.base));
         }
         context.glyphs.set(new_glyph);
+    }
+}
+
+/// Fail if any glyph is part of, or refers to, a cycle of component references.
+///
+/// Everything downstream (flattening, decomposition, bbox computation) walks
+/// the component graph and would otherwise recurse or loop forever. Run after
+/// [`prune_missing_components`], so that the only glyphs the depth sort can
+/// fail to place are those on, or downstream of, a cycle.
+fn check_no_component_cycles(context: &Context) -> Result<(), BadGlyph> {
+    let glyphs = context.glyphs.all();
+    let glyphs = glyphs
+        .iter()
+        .map(|g| (g.1.name.clone().into_inner(), g.1.as_ref()))
+        .collect();
+
+    // the depth sort silently drops any glyph it cannot assign a depth to
+    let sorted = fontdrasil::util::depth_sorted_composite_glyphs(&glyphs);
+    if sorted.len() == glyphs.len() {
+        return Ok(());
+    }
+    let sorted: HashSet<_> = sorted.into_iter().collect();
+    match glyphs.keys().find(|name| !sorted.contains(*name)) {
+        Some(name) => Err(BadGlyph::new(name.clone(), BadGlyphKind::ComponentCycle)),
+        None => Ok(()),
     }
 }
 
@@ -828,6 +854,9 @@ impl Work<Context, WorkId, Error> for GlyphOrderWork {
         // missing component can't cause its glyph (or its siblings) to be
         // decomposed. See https://github.com/googlefonts/fontc/issues/1858
         prune_missing_components(context);
+
+        // Nothing past this point terminates on a cyclic component graph
+        check_no_component_cycles(context)?;
 
         // Propagate anchors from components to composites (if enabled)
         // This must happen BEFORE flattening non-export components, because after
@@ -1822,6 +1851,47 @@ mod tests {
         let a = context.get_glyph("a");
         assert!(a.default_instance().components.is_empty());
         assert!(a.default_instance().contours.is_empty());
+    }
+
+    #[test]
+    fn component_cycles_are_rejected() {
+        // a <-> b is a cycle and 'd' merely refers to it; 'c' is fine.
+        let mut builder = GlyphOrderBuilder::default();
+        builder.add_glyph("a", ["b"]);
+        builder.add_glyph("b", ["a"]);
+        builder.add_glyph("c", []);
+        builder.add_glyph("d", ["c", "a"]);
+        let context = builder.into_context();
+
+        let err = check_no_component_cycles(&context).unwrap_err();
+        // the first offender in name order is reported
+        assert!(err.to_string().contains("'a'"), "{err}");
+        assert!(err.to_string().contains("component cycle"), "{err}");
+    }
+
+    #[test]
+    fn self_referencing_component_is_rejected() {
+        let mut builder = GlyphOrderBuilder::default();
+        builder.add_glyph("a", ["a"]);
+        builder.add_glyph("b", []);
+        let context = builder.into_context();
+
+        let err = check_no_component_cycles(&context).unwrap_err();
+        assert!(err.to_string().contains("component cycle"), "{err}");
+    }
+
+    #[test]
+    fn nested_acyclic_components_are_accepted() {
+        // a diamond plus nesting: shared bases are not cycles
+        let mut builder = GlyphOrderBuilder::default();
+        builder.add_glyph("a", ["b", "c"]);
+        builder.add_glyph("b", ["d"]);
+        builder.add_glyph("c", ["d", "e"]);
+        builder.add_glyph("d", ["e"]);
+        builder.add_glyph("e", []);
+        let context = builder.into_context();
+
+        check_no_component_cycles(&context).unwrap();
     }
 
     #[test]
